@@ -32,6 +32,7 @@ ASSUMPTIONS = [
 FLOORS = {
     "quick": {"reloads": 10000, "reloads-with-disabled": 2000, "reloads-via-file": 3000,
               "reloads-through-a-used-parser": 5000, "wild-names": 2500, "wild-descriptions": 1500,
+              "saves-through-tosieve-into-a-chunk-list": 2500,
               "reloads-with-CR-in-text": 1000,
               "reloads-with-description": 2000, "reloads-custom-prefix": 2000},
     "thorough": {"reloads": 150000, "reloads-with-disabled": 30000, "reloads-via-file": 40000,
@@ -106,12 +107,29 @@ def filter_trees(text):
             for c in tree if c.name != "require"]
 
 
+SAVES = [0]
+
+
 def check(fs, prefixes, res: Result, witness):
     r = fl.render(fs)
     if r[0] != "ret":
         res.count("skipped:render-raised(C06)")
         return
     s1 = r[1]
+    SAVES[0] += 1
+    if SAVES[0] % 4 == 0:
+        # the documented way to save: tosieve(target=<writer>); here a writer that collects
+        # chunks in a list (empty, hence falsy, until written to), stdout captured
+        import contextlib
+        import io
+        sink, leak = lab.ListSink(), io.StringIO()
+        with contextlib.redirect_stdout(leak):
+            rr = fl.call(fs.tosieve, sink)
+        res.count("saves-through-tosieve-into-a-chunk-list")
+        if rr[0] != "ret" or sink.getvalue() != s1 or leak.getvalue():
+            res.violation({"clause": "saved-text-depends-on-the-kind-of-writer"},
+                          dict(witness, str_of_set=s1[:300], into_chunk_list=sink.getvalue()[:300],
+                               leaked_to_stdout=leak.getvalue()[:200], outcome=repr(rr)[:100]))
     B, o = reload(s1, prefixes)
     if B is None:
         res.count("skipped:rendering-rejected(C06)")
